@@ -11,6 +11,12 @@ def lib_len(e, st, a, kw, n):
         return VNum(z3.IntVal(len(x.items)))
     if isinstance(x, VOpaque) and isinstance(x.tag, tuple) and x.tag[0] == "map":
         return VNum(x.tag[1])  # abstract finite map: ("map", size)
+    if isinstance(x, VDict):
+        return VNum(z3.IntVal(len(x.d)))
+    if isinstance(x, VOpaque):      # length of an external result: some non-negative integer
+        r = fresh("extlen", I)
+        st.assume(r >= 0)
+        return VNum(r)
     raise Unsupported("len of " + type(x).__name__)
 
 
